@@ -86,6 +86,19 @@ func (t *Tap) Of(sid string, kinds ...string) []Event {
 	return out
 }
 
+// Last returns the most recent event of a session with the given kind and text.
+func (t *Tap) Last(sid, kind, str string) (Event, bool) {
+	t.mu.Lock()
+	defer t.mu.Unlock()
+	for i := len(t.events) - 1; i >= 0; i-- {
+		e := t.events[i]
+		if e.Sid == sid && e.Kind == kind && e.Str == str {
+			return e, true
+		}
+	}
+	return Event{}, false
+}
+
 func (t *Tap) Now() time.Duration { return time.Since(t.start) }
 
 // Req records one HTTP exchange as seen by the wrapping handler.
